@@ -97,7 +97,7 @@ func e2eUp4QosWorker(args []string) error {
 			if len(op) == 5 && op[:2] == "E:" { // E:<flows><s|n><z|g>
 				g.MinFlows, g.MaxFlows = int(op[2]-'0'), int(op[2]-'0')
 				g.ForceSessQer, g.NoSessQer = op[3] == 's', op[3] == 'n'
-				g.GbrMode = map[byte]int{'z': 1, 'g': 2}[op[4]]
+				g.GbrMode = map[byte]int{'z': 1, 'g': 2, 'b': 3}[op[4]]
 
 				s = nil
 				if g.Establish("p1") {
